@@ -481,6 +481,15 @@ pub fn disc_grid(fam: Family, s: Scalar) -> Vec<DistSpec> {
                 [60, 30, 21],
                 [60, 30, 20],
                 [200, 13, 150],
+                // H2PE just above its threshold (mode 10..12): the end points of the support
+                // still carry ~e^-10 of mass here
+                [1u64 << 30, 103_622, 103_622],
+                [1u64 << 30, (1u64 << 30) - 103_622, 103_622],
+                [1u64 << 30, 103_622, (1u64 << 30) - 103_622],
+                [1_000_000, 3400, 3400],
+                [1000, 110, 100],
+                [1000, 890, 100],
+                [100_000, 1100, 1000],
             ];
             v.into_iter().map(|t| DistSpec::i(fam, &t, &[])).collect()
         }
@@ -629,6 +638,16 @@ pub fn weighted_specs() -> Vec<DistSpec> {
                     vec![0.1, 0.2, 0.3, 0.4, 0.5, 0.6, 0.7],
                 ] {
                     v.push(DistSpec::w_float(fam, wty, &ws));
+                }
+                {
+                    // decimal (non-dyadic) weights: alias columns whose sums do not close
+                    // exactly leave "left-over" columns a few ulp below 100%
+                    let mut r = SimRng::new(0xA11A5);
+                    for _ in 0..12u64 {
+                        let len = 2 + below(&mut r, 7) as usize;
+                        let ws: Vec<f64> = (0..len).map(|_| (below(&mut r, 29) as f64 + 1.0) / 10.0).collect();
+                        v.push(DistSpec::w_float(fam, wty, &ws));
+                    }
                 }
                 if fam == Family::Tree {
                     // values reached through push / update histories and decimal weights with
